@@ -55,7 +55,8 @@ class Gen:
         thorough = tier == "thorough"
         self.cfg = {
             "nsteps": int(r.integers(8, 151 if thorough else 61)),
-            "nmax": 80 if thorough and r.random() < 0.3 else 40,
+            "nmax": 80 if r.random() < (0.3 if thorough else 0.12) else 40,
+            "long": bool(r.random() < 0.5),
             "faults": [],
             "p_fault": float(r.uniform(0.05, 0.3)),
             "routes": ["clone", "setp"] if r.random() < (0.5 if thorough else 0.25) else [],
@@ -93,6 +94,8 @@ class Gen:
         did = 0
         for f in range(nfam):
             n = int(r.integers(4, self.cfg["nmax"] + 1))
+            if self.cfg["nmax"] > 40 and self.cfg.get("long") and f == 0:
+                n = int(r.integers(62, self.cfg["nmax"] + 1))
             p = int(r.integers(1, 4))
             if f == 0:
                 self.p0 = p
@@ -101,7 +104,18 @@ class Gen:
             dtype = "int64" if r.random() < 0.2 else "float64"
             ik = [("range", 0), ("range", 0), ("range", int(r.integers(1, 50))), ("dt", 0), ("dt", int(r.integers(1, 9)))][int(r.integers(5))]
             cols = [f"v{j}" for j in range(p)] if r.random() < 0.7 else list(range(p))
+            prev_vals = None
             for t in range(int(r.integers(2, 4))):
+                vals = self.values(n, p, dtype)
+                if prev_vals is not None and n >= 8 and r.random() < 0.35:
+                    # near twin: the sibling with only a middle stretch changed (same
+                    # head and tail rows) - what a lossy data fingerprint confuses
+                    vals = prev_vals.copy()
+                    a = int(r.integers(n // 4, n // 2))
+                    b = int(r.integers(a + 1, max(a + 2, 3 * n // 4)))
+                    shift = r.normal(scale=4.0, size=p)
+                    vals[a:b] = vals[a:b] + (np.round(shift * 3).astype("int64") if dtype == "int64" else np.round(shift, 3))
+                prev_vals = vals
                 out.append(
                     {
                         "id": did,
@@ -110,7 +124,7 @@ class Gen:
                         "dtype": dtype,
                         "index": {"kind": ik[0], "start": ik[1]},
                         "columns": cols,
-                        "values": values_to_json(self.values(n, p, dtype)),
+                        "values": values_to_json(vals),
                     }
                 )
                 did += 1
